@@ -12,6 +12,10 @@ def hooks_commits():
 
 # id -> dict(engine, category, technique, text, note, design_ref)
 CHECKS = {
+ "C08": dict(engine="h_filt", category="exploration", design="§3 C08",
+   technique="exhaustive enumeration of filter expressions and stack shapes x a static metadata universe x span contexts through the Collect API, checking the summary/decision implication table and (for stacks) the cached-shortcut path against the full path",
+   text="Every filter expression up to the stated depth over level thresholds, target tables (incl. duplicate/conflicting entries), static, span-scoped and value-matching EnvFilters, closure filters with and without true hints, Option, reload, and/or/not, and every stack shape (C07's generator plus global filters inside Vec/Option/trees) is evaluated on 26 static metadata x 4 span contexts: callsite_enabled/register_callsite = never implies enabled() false everywhere, always implies true everywhere, a max-level hint h implies nothing above h is enabled; for stacks, delivery with the cached shortcut (no enabled() call) must equal delivery on the full path.",
+   note="Closure filters only get true upper bounds as hints (self-consistency). Known findings F11 (Vec publishes the highest interest of its members) and F16 (EnvFilter publishes `always` for span callsites matched by a span directive regardless of its level) are attributed by exact case shape."),
  "C07": dict(engine="h_filt", category="model_checking", design="§3 C07",
    technique="explicit-state BFS over emission histories for every generated stack configuration, executed through the real macros on a fresh OS thread with a freshly built Dispatch, against a stack-semantics reference model; state key includes the thread's per-layer-filter bitmap (observation hook)",
    text="For every generated stack (<= 4 positions of plain / global-filter / per-layer-filtered layers; Layered trees via and_then, Vec, Option, Box, nested Filtered; filters drawn from level thresholds, target tables, EnvFilter static and span-scoped directives, static and context-dependent closures, and/or/not; also two different stacks on two threads) every history up to the stated depth of {event, open+enter span, record, close, enabled! probe} is executed; after every step each recording layer's callbacks, lookup_current() and scope() must equal what the model says: global filters AND the filters on the layer's own path, each evaluated on the spans visible to it.",
